@@ -1,8 +1,19 @@
 """C17 xsync.Group: StopAndWait is a barrier; triggers are never lost or overlapped (spec/xsync Trace_Group)."""
 from bubblecommon import bubble_tv
+from common import mc, mc_must_fail
+
+
+def design(ctx):
+    # D: spawn (read lock, context check, wg.Add, unlock, go) racing with Stop / StopAndWait, and a Trigger loop with
+    #    its token channel: every interleaving (Group.tla); wg.Add outside the lock and an unbuffered token channel
+    #    are shown to violate the barrier / lose a trigger (teeth)
+    mc(ctx, "xsync", "Group", "grp.cfg", "Group I-layer", coverage=False)
+    mc_must_fail(ctx, "xsync", "Group", "grp_late.cfg", "wg.Add after releasing the read lock", expect="Barrier")
+    mc_must_fail(ctx, "xsync", "Group", "grp_cap0.cfg", "unbuffered trigger channel", expect="NoLostTrigger")
 
 
 def run(ctx):
+    design(ctx)
     # T: fake-clock bubbles: Do/Periodic/Trigger/PeriodicOrTrigger registrations (also racing with the
     #    stop), trigger bursts during and right after a run, functions that ignore their context and are
     #    released by the harness, Stop / StopAndWait / parent cancellation; judged by Trace_Group
